@@ -48,7 +48,8 @@ def gen (k : Nat) : G (List String) := do
     let sep ← pick ["0a", "-", "0d0a", "7c7c7c"]
     out := out ++ ["file " ++ toString n ++ " " ++ sep ++ " " ++ ",".intercalate plan, expectLine]
   -- a rotation whose reopen fails (a directory sits at the path): nothing that was acknowledged may be missing
-  out := out ++ ["filefault 20 0a", "expect res ok lostacked=0", "filefault 5 0d0a", "expect res ok lostacked=0"]
+  out := out ++ ["filefault 20 0a", "expect @head res ok lostacked=0", "filefault 5 0d0a", "expect @head res ok lostacked=0",
+                 "filefault " ++ toString (← range 1 60) ++ " 7c7c7c", "expect @head res ok lostacked=0"]
   -- unscheduled concurrent senders with message sizes up to 33 KB, rotations in between
   for _ in [0:(k / 4 + 1)] do
     let w ← pick [4, 8, 16, 32]
